@@ -1047,3 +1047,16 @@ def _(eng, ci, a, dt):
     if eng.truth(r.f[1]):
         raise RustPanic('attempt to %s with overflow' % ci.method, 'overflow', ci.text)
     return r.f[0]
+
+
+@model('Fn::call', 'FnMut::call_mut', 'FnOnce::call_once')
+def _(eng, ci, a, dt):
+    """<F as Fn<(A, B)>>::call(&f, (a, b)) on a closure / fn item value"""
+    args = a[1]
+    if args == UNIT:
+        args = []
+    elif type(args) is Agg:
+        args = list(args.f)
+    else:
+        raise Unsupported('Fn::call argument pack %r' % (args,))
+    return eng.call_callable(a[0], args)
